@@ -424,7 +424,8 @@ def loader_table(world, run):
         return None
     table = {}
     for name in run['loader']:
-        data = ('LOADER:' + name).encode('latin-1')
+        # some of the files the loader knows are empty: an empty file is still a file
+        data = b'' if sum(name.encode('latin-1', 'replace')) % 4 == 0 else ('LOADER:' + name).encode('latin-1')
         if data not in world.byid:
             world.blobs.append(data)
             world.byid[data] = len(world.blobs) - 1
@@ -492,7 +493,8 @@ def real_run(world, run):
             except Exception as e:
                 acc = 'raw:' + type(e).__name__
             else:
-                if isinstance(d, (bytes, bytearray)) and d:
+                if isinstance(d, (bytes, bytearray)) and (d or len(c.errors) == nerr):
+                    # bytes came back (an empty file gives empty bytes and records nothing)
                     acc = 'd%s' % world.byid.get(bytes(d), '?')
                     try:
                         if im.data != d:
